@@ -137,6 +137,40 @@ C_FamilyDisjoint(c) ==
               /\ \A k \in DOMAIN reserve : (k[2] = c.zone /\ k[1] >= Len(c.fam))
                                             => Range(reserve[k]) \cap U = {}
 
+(* The ring of ALL instances 0..n of one zone as one sequence sorted by token:                    *)
+(*   c = [ev |-> "donors", zone, from, ring],  ring[p] = <<hi, lo, instance index>>.              *)
+(* The generator builds the tokens of instance i by cutting them out of the ranges of instances   *)
+(* 0..i-1, always from the instance that currently owns most.  The DONOR of a token t of instance *)
+(* i is therefore the owner of the first token clockwise after t that belongs to an instance with *)
+(* a smaller index (only order comparisons).  Because every instance stays in the generator's     *)
+(* priority queue (an instance that is popped and cannot host a token is pushed back) and each    *)
+(* has to hand over 1/(i(i+1)) of the key space to instance i, no instance is ever starved as a   *)
+(* donor: every instance below `from` is the donor of some token of the instances from..n.  This  *)
+(* is the relational shadow of the numeric "equal shares" clause; an instance that drops out of   *)
+(* the queue keeps its share for ever and violates it.  Checked on recorded rings only (the       *)
+(* abstract model's reserves are arbitrary): windows of 50 (n <= 300) and 100 (n = 2000)          *)
+(* instances, for which the pinned code has >= 16 donations per instance.                         *)
+IsDon(c) == c.ev = "donors"
+RTok(e)  == <<e[1], e[2]>>
+ROwn(e)  == e[3]
+C_RingIsFamily(c) ==
+  IsDon(c) => LET n1   == Len(c.ring) \div R
+                  \* (Cardinality normalises the set once, so that the membership tests below are binary searches)
+                  sets == [k \in 0..(n1-1) |-> LET S == Range(reserve[<<k, c.zone>>]) IN IF Cardinality(S) = R THEN S ELSE {}]
+              IN  /\ Len(c.ring) = n1 * R /\ c.from \in 1..(n1-1)
+                  /\ \A p \in 1..(Len(c.ring)-1) : Lt(RTok(c.ring[p]), RTok(c.ring[p+1]))
+                  /\ \A p \in DOMAIN c.ring : /\ ROwn(c.ring[p]) \in 0..(n1-1)
+                                               /\ RTok(c.ring[p]) \in sets[ROwn(c.ring[p])]
+RECURSIVE NextLower(_, _, _, _)
+NextLower(rg, q, o, left) ==
+  IF left = 0 THEN -1
+  ELSE IF ROwn(rg[q]) < o THEN ROwn(rg[q])
+  ELSE NextLower(rg, (q % Len(rg)) + 1, o, left - 1)
+Donor(rg, p) == NextLower(rg, (p % Len(rg)) + 1, ROwn(rg[p]), Len(rg))
+C_NoDonorStarved(c) ==
+  IsDon(c) => LET donors == {Donor(c.ring, p) : p \in {q \in DOMAIN c.ring : ROwn(c.ring[q]) >= c.from}}
+              IN  \A k \in 0..(c.from - 1) : k \in donors
+
 (* Constructors: c = [ev |-> "gen", ctor, nz, zin, idok, ok].  By name: the zone list must have  *)
 (* 1..MaxZ entries, contain the zone, and the instance name must end in -<digits>.               *)
 ConstructSpec(ctor, nz, zin, idok) == ctor # "name" \/ (nz \in 1..MaxZ /\ zin /\ idok)
@@ -256,6 +290,10 @@ FamilyObs(z, fam) ==
                    IF k \in DOMAIN reserve THEN reserve[k] ELSE fam[k[1]+1]]
   /\ last' = [ev |-> "family", zone |-> z, fam |-> fam]
   /\ UNCHANGED <<ring, pool, parts, shrunk>>
+
+DonorsObs(z, from, rg) ==
+  /\ last' = [ev |-> "donors", zone |-> z, from |-> from, ring |-> rg]
+  /\ UNCHANGED <<reserve, ring, pool, parts, shrunk>>
 
 ConstructObs(ctor, nz, zin, idok, ok) ==
   /\ last' = [ev |-> "gen", ctor |-> ctor, nz |-> nz, zin |-> zin, idok |-> idok, ok |-> ok]
